@@ -155,7 +155,7 @@ func explore(p *pool, ls *loadSpec, o exploreOpts) *ExploreResult {
 	var pathWall float64
 	send := func(w *wproc, prefix []interp.Dec) {
 		job := interp.Job{ID: nextID, Prefix: prefix, Fn: ls.Fn, Params: ls.Params, Overrides: ls.Overrides,
-			TimeoutMS: ls.TimeoutMS, MaxSteps: ls.MaxSteps, XCheck: ls.XCheck, Fixed: ls.Fixed, Solver: ls.Solver}
+			TimeoutMS: ls.TimeoutMS, MaxSteps: ls.MaxSteps, HangViol: ls.HangViol, XCheck: ls.XCheck, Fixed: ls.Fixed, Solver: ls.Solver}
 		nextID++
 		if samples < o.Samples {
 			job.Sample = true
